@@ -185,6 +185,9 @@ def check_property(prop, tier, seed, keep=False, canary=True):
         if r['status'] == 'undecided':
             undecided.append('%s: %s' % (u.name, '; '.join(r['notes'])))
             continue
+        for mname, mprops, mwhy in getattr(u, 'missing', []):
+            if prop in mprops or not mprops:
+                undecided.append('%s:%s: lifted function no longer exists, its obligation is not decided (%s)' % (u.name, mname, mwhy))
         if r['canary_ok'] is False and canary:
             undecided.append('%s: vacuity canary did not fail for %s' % (u.name, r['canary_missing'] or 'the unit'))
         trusted += u.trusted
@@ -418,6 +421,8 @@ def debug_unit(name, keep=False):
         return 2
     u = us[0]
     r = run_unit(u, wd, canary=True)
+    for m in getattr(u, 'missing', []):
+        print('  MISSING lifted function: %s (%s)' % (m[0], m[2]))
     print('unit %s: status=%s verified=%s errors=%s wall=%.1fs smt=%.2fs canary_ok=%s missing=%s' % (
         name, r['status'], r['verified'], r['errors'], r['wall_s'], r['smt_s'], r['canary_ok'], r['canary_missing']))
     for n in r['notes']:
